@@ -75,6 +75,13 @@ CLAIMED.update({
    note="debug/elf trusted; the register-count override arithmetic and the V5 policy overrides are not decided; the transcription of the two layouts is part of the trusted base (cross-checked against a shipped gfx942 descriptor); three offset defects of parseV5KernelDescriptor recorded as known findings"),
 })
 
+CLAIMED.update({
+ "C03": dict(
+   text="ISA rules that are uniform across opcodes and visible in the code shape, for both ALUs and all paths: dispatch integrity of every opcode switch (one handler per case, panicking default, listed functional no-ops only), ALL-OR-NONE of condition-code writes in every handler, shift-amount intervals in every handler of a shift instruction (handlers tied to instruction names through decode table, dispatch switch and callee), destination-only operand writes and PC/EXEC writers restricted by instruction name. Bit-exact arithmetic conformance needs an executable ISA transcription and is not decided.",
+   ref="4/C03", technique="constant-table evaluation (decode table and dispatch switches), must-pass path analysis (ALL-OR-NONE), interval analysis on SSA (INTERVAL), who-may-write",
+   note="arithmetic, rounding, saturation and comparison semantics of individual opcodes are not decided; two defect families (one-sided SCC, unmasked shifts) found and repaired by fix: commits"),
+})
+
 PENDING = {}
 
 NOT_APPLICABLE = {
